@@ -140,7 +140,7 @@ def gen_patterns(rng):
     if rng.random() < 0.25:
         # every pattern is searched on its own: an inline flag or a capturing group of one pattern means nothing to
         # the others (global flags are written first, as Python requires)
-        special = ['(?i)conv', '(?i)LINEAR', '(?i)^FC', r'(fc|proj)_\w+$', r'(\d)\1', r'(conv)$', r'(?i)head\d', r'(.)\1',
+        special = [r'\d{1,2}$', r'^\w{2,}\.0', r'l{1,}0', r'c{1,2}onv', '(?i)conv', '(?i)LINEAR', '(?i)^FC', r'(fc|proj)_\w+$', r'(\d)\1', r'(conv)$', r'(?i)head\d', r'(.)\1',
                    r'(?x) proj # comment', r'(?s)x.']
         return rng.sample(special, rng.choice([1, 2, 2, 3])) + rng.sample(atoms[:-1], rng.choice([0, 1, 2]))
     return rng.sample(atoms[:-1], rng.choice([0, 0, 1, 1, 2, 3])) if rng.random() < 0.97 else ['.']
